@@ -649,6 +649,34 @@ pub fn run(cfg: &Cfg, rep: &mut Report) {
         lines_w.push(format!("case {} {} {}", reps, threads, input));
         cases.push((o, src, input));
     }
+    // curated: reference definitions whose labels differ only in case, used in a third spelling; one
+    // definition with a long destination used so often that a few concurrent renders together pass the
+    // expansion budget a lone render stays under; both on racing threads
+    {
+        let long_url = format!("/{}", "u".repeat(600));
+        let mut heavy = format!("[ref]: {}\n\n", long_url);
+        for i in 0..150 {
+            heavy.push_str(&format!("[use {}][ref] ", i));
+            if i % 10 == 9 {
+                heavy.push_str("\n\n");
+            }
+        }
+        let curated = [
+            "[GitHub]: /first\n[GITHUB]: /second\n[gitHub]: /third\n\n[github] [Github][] [x][GITHUB]\n".to_string(),
+            "[\u{df}]: /sharp\n[SS]: /ss\n\n[ss] [\u{1e9e}]\n".to_string(),
+            heavy,
+        ];
+        for (k, md) in curated.iter().enumerate() {
+            for threads in [8usize, 0] {
+                let o = Opts::default();
+                let src = Src::Doc(md.clone());
+                let input = src.input(&o);
+                lines_w.push(format!("case {} {} {}", if k == 2 { 3 } else { reps * 4 }, threads, input));
+                cases.push((o, src, input));
+                rep.count("gen-curated-reference-definitions");
+            }
+        }
+    }
     let outs = crate::worker::run_cases("C05", &lines_w, budget, crate::worker::default_workers());
     let mut inputs: Vec<(String, [Vec<u8>; 3])> = vec![];
     let mut bt = Batch::new();
